@@ -147,6 +147,20 @@ def fit (K : Kernel X Wt α μ) (cfg : SearchCfg μ θ) (th0 : θ)
     (veto : ArtState Wt → X → Nat → Bool) (_s : ArtState Wt) (xs : List X) : ArtState Wt :=
   partialFit K cfg th0 veto {} xs
 
+/-- one presentation inside an epoch of `fit`: `labels_[i] = step_fit(x)` (the label vector has its final length
+from the start; later epochs overwrite) -/
+def epochStep (K : Kernel X Wt α μ) (cfg : SearchCfg μ θ) (th0 : θ)
+    (veto : ArtState Wt → X → Nat → Bool) (s : ArtState Wt) (xi : X × Nat) : ArtState Wt :=
+  let (s', c) := stepFit K cfg th0 (veto s xi.1) s xi.1
+  { s' with labels := s'.labels.set xi.2 c }
+
+/-- `fit(X, max_iter = epochs)`: weights, counters and labels start fresh; every epoch presents the whole stream
+again; weights and counters carry over from epoch to epoch -/
+def fitEpochs (K : Kernel X Wt α μ) (cfg : SearchCfg μ θ) (th0 : θ)
+    (veto : ArtState Wt → X → Nat → Bool) (epochs : Nat) (xs : List X) : ArtState Wt :=
+  (List.range epochs).foldl (fun s _ => (xs.zipIdx).foldl (epochStep K cfg th0 veto) s)
+    { W := [], cnt := [], n := 0, labels := List.replicate xs.length 0 }
+
 def noVeto {S X : Type} : S → X → Nat → Bool := fun _ _ _ => false
 
 /-- `step_pred`: `np.argmax` of the activations. -/
